@@ -139,7 +139,8 @@ def intElemBits (signed : Bool) (bits : Nat) (v : Val) : Option Nat :=
     if signed then
       if neg then (if n ≤ 2 ^ (bits - 1) then some ((2 ^ bits - n) % 2 ^ bits) else none)
       else (if n < 2 ^ (bits - 1) then some n else none)
-    else if neg && n ≠ 0 then none else (if n < 2 ^ bits then some n else none)
+    else if neg then none   -- the grammar of unsigned arrays has no sign at all: "-0" is not an element
+    else (if n < 2 ^ bits then some n else none)
   | _ => none
 
 /-- float element spelling: prefix forms under a plain header, bare hex under an x header -/
